@@ -19,6 +19,7 @@ BASE = {
     "mode": "none", "type_mappings": True, "default_parameter_case": "camelCase", "default_field_case": "snake_case", "visualize_deps": False,
     "no_commands": False, "second_file": False, "private_field_type": "u32", "crate_field": False,
     "cmd_rename_all": None, "param_serde_rename": None, "status_serde": True, "channel_name": "on_progress", "validator_range": None, "second_struct_field": "i32",
+    "notice_min": 3, "notice_level": "i32", "notice_nested": "u8",
 }
 
 # edit classes: name -> function(state) (toggles, so that sequences compose); "affects": None=always, "zod"=only visible in zod mode
@@ -59,6 +60,11 @@ EDITS = [
     ("rename-channel-parameter", lambda s: s.update(channel_name="on_update" if s["channel_name"] == "on_progress" else "on_progress", channel=True)),
     ("validator-range-on-number", lambda s: s.update(validator_range=None if s["validator_range"] else (1, 99))),
     ("retarget-field-of-nested-type", lambda s: s.update(second_struct_field="String" if s["second_struct_field"] == "i32" else "i32")),
+    ("event-only-struct-validator", lambda s: s.update(notice_min=7 if s["notice_min"] == 3 else 3)),
+    ("event-only-struct-field-type", lambda s: s.update(notice_level="String" if s["notice_level"] == "i32" else "i32")),
+    ("type-nested-in-event-only-struct", lambda s: s.update(notice_nested="bool" if s["notice_nested"] == "u8" else "u8")),
+    ("delete-generated-file:dependency-graph.txt", "delete:dependency-graph.txt"),
+    ("delete-generated-file:dependency-graph.dot", "delete:dependency-graph.dot"),
     ("delete-generated-file:types.ts", "delete:types.ts"),
     ("delete-generated-file:commands.ts", "delete:commands.ts"),
     ("delete-generated-file:index.ts", "delete:index.ts"),
@@ -67,7 +73,7 @@ EDITS = [
     ("move-type-to-other-file", lambda s: s.update(second_file=not s["second_file"])),
     ("comment-noise(control)", lambda s: s.update(noise=s["noise"] + 1)),
 ]
-ZOD_ONLY = {"validator-value", "validator-message", "validator-email", "validator-range-on-number"}
+ZOD_ONLY = {"event-only-struct-validator", "validator-value", "validator-message", "validator-email", "validator-range-on-number"}
 
 
 def render(s):
@@ -110,6 +116,11 @@ def render(s):
         if s["cmd_extra"]:
             cmds += rg.command_src("extra_cmd", [("flag", "bool")], "Status")
     ev = "pub fn notify(app: AppHandle, payload: %s) {\n    app.emit(\"%s\", payload).unwrap();\n}\n\n" % (s["event_payload"], s["event_name"])
+    # a struct (with validators and a nested type) that only an event payload reaches
+    ev += rg.struct_src("NoticeMeta", [("code", s["notice_nested"])])
+    ev += rg.struct_src("Notice", [("text", "String", ['#[validate(length(min = %d, max = 20, message = "notice length"))]' % s["notice_min"]]), ("level", s["notice_level"]), ("meta", "Vec<NoticeMeta>")],
+                        derives="Serialize, Deserialize, Validate")
+    ev += "pub fn notify_notice(app: AppHandle, n: Notice) {\n    app.emit(\"notice\", n).unwrap();\n}\n\n"
     if s["event_extra"]:
         ev += "pub fn notify2(app: AppHandle) {\n    app.emit(\"tick\", 1).unwrap();\n}\n\n"
     hdr = rg.PRELUDE + "use std::path::PathBuf;\nuse tauri::{AppHandle, Emitter, ipc::Channel};\nuse validator::Validate;\n\n" + "// noise\n" * s["noise"]
